@@ -5,6 +5,7 @@
    drain/park races. *)
 From Coq Require Import List NArith Bool Permutation.
 From MV Require Import Queue.Model Queue.Spec Queue.Inv Queue.Delivery Queue.Reports Queue.Isolation Queue.Wakeup.
+From MV Require Import Queue.RateLimit Queue.RateLimitProofs.
 Import ListNotations.
 
 (* Removal from the ring is in append order, and the stream has seen exactly the popped entries, in that
@@ -137,3 +138,76 @@ Example c01_example_isolation :
   map erase_l [LPush 1 0; LW ex_ok; LW ex_val] = map erase_l [LPush 1 0; LW ex_ok; LW ex_io] /\
   run ex_cfg init [LPush 1 0; LW ex_ok; LW ex_val] <> None /\ run ex_cfg init [LPush 1 0; LW ex_ok; LW ex_io] <> None.
 Proof. vm_compute. repeat split; discriminate. Qed.
+
+(* ---- "rate-limited": the limiter in front of the in-band report (Queue/RateLimit.v = the macro rate_limited!,
+   tied to the code by the `rate` comparison through a forced clock).  In the transition system above the
+   limiter's verdict is an oracle bit of the writer's step; these statements say what that bit can be. *)
+
+(* Two reports: the later one's clock reading has reached the slot computed at the earlier one (whatever the
+   clock does in between; a and b are positions among the validation failures). *)
+Theorem c01_reports_spaced : forall i next ts a b ta tb,
+  times_ok ts -> (a < b)%nat ->
+  nth_error ts a = Some ta -> nth_error ts b = Some tb ->
+  nth_error (fst (rl_run i next ts)) a = Some true ->
+  nth_error (fst (rl_run i next ts)) b = Some true ->
+  (next_slot ta i <= as_secs tb)%N.
+Proof. exact rl_spacing. Qed.
+Print Assumptions c01_reports_spaced.
+
+(* With the queue's interval of one second no two reports carry the same whole second of the clock. *)
+Theorem c01_one_report_per_second : forall next ts a b ta tb,
+  times_ok ts -> (a < b)%nat ->
+  nth_error ts a = Some ta -> nth_error ts b = Some tb ->
+  nth_error (fst (rl_run NS next ts)) a = Some true ->
+  nth_error (fst (rl_run NS next ts)) b = Some true ->
+  (as_secs ta < U64MAX)%N ->
+  (as_secs ta + 1 <= as_secs tb)%N.
+Proof. exact rl_one_per_second. Qed.
+Print Assumptions c01_one_report_per_second.
+
+(* While the clock's whole seconds stay within [lo, hi], at most (hi - lo) / interval + 1 reports are written,
+   however many entries fail. *)
+Theorem c01_report_count_bounded : forall i next ts lo hi,
+  (1 <= as_secs i)%N -> (hi + as_secs i <= U64MAX)%N ->
+  Forall (fun t => (lo <= as_secs t <= hi)%N) ts ->
+  (N.of_nat (count_true (fst (rl_run i next ts))) <= (hi - lo) / as_secs i + 1)%N.
+Proof. exact rl_count_bound. Qed.
+Print Assumptions c01_report_count_bounded.
+
+(* A failure goes unreported only while an earlier report (or the initial slot) still covers its second. *)
+Theorem c01_unreported_only_if_recent : forall i next ts b tb,
+  times_ok ts ->
+  nth_error ts b = Some tb ->
+  nth_error (fst (rl_run i next ts)) b = Some false ->
+  (as_secs tb < next)%N \/
+  exists a ta, (a < b)%nat /\ nth_error ts a = Some ta /\ nth_error (fst (rl_run i next ts)) a = Some true /\
+               (as_secs tb < next_slot ta i)%N.
+Proof. exact rl_refused_means_recent. Qed.
+Print Assumptions c01_unreported_only_if_recent.
+
+(* The limiter's word is shared by every queue of the process: for any interleaving of the loads and
+   compare-exchanges of any number of writer threads the allowed calls are spaced in the same way. *)
+Theorem c01_reports_spaced_concurrently : forall i next ls,
+  labels_ok ls -> spaced i (r_allowed (rrun i (rinit next) ls)).
+Proof. exact rl_concurrent_spacing. Qed.
+Print Assumptions c01_reports_spaced_concurrently.
+
+(* The observation compared with the implementation counts exactly the limiter's allowed calls at the failures. *)
+Theorem c01_rate_observation : forall i ops next now,
+  count_true (rate_obs i next now ops) = count_true (fst (rl_run i next (fail_times now ops))).
+Proof. exact rate_obs_reports. Qed.
+Print Assumptions c01_rate_observation.
+
+(* The property-level reading of an observed run — reports spaced, a failure unreported only while the previous
+   report's slot covers it, nothing reported elsewhere — holds exactly when the run equals the model's: a
+   difference found by the `rate` comparison is a violation of that reading, not only of the correspondence. *)
+Theorem c01_rate_spec_characterises : forall i ops obs last now,
+  rate_spec i last now ops obs = true <-> obs = rate_obs i (slot_of i last) now ops.
+Proof. exact rate_spec_characterises. Qed.
+Print Assumptions c01_rate_spec_characterises.
+
+Example c01_example_rate_burst :
+  rate_obs NS 0 0 [OSet (3600 * NS); OFail; OFail; OOk; OFail; OSet (3600 * NS + 999999999); OFail;
+                   OSet (3601 * NS); OFail; OFail]
+  = [false; true; false; false; false; false; false; false; true; false].
+Proof. exact rl_example_burst. Qed.
